@@ -3261,7 +3261,12 @@ impl<'s> Semantics<'s> {
 
             let value = self.operand_load(block, &detail.operands[0])?;
 
-            self.mode().push_value(block, value)?;
+            // the operand is read before the stack pointer is decremented
+            // (push rsp stores the old value, push [rsp+8] addresses with it)
+            let temp = self.temp(0, value.bits());
+            block.assign(temp.clone(), value);
+
+            self.mode().push_value(block, temp.into())?;
 
             block.index()
         };
